@@ -17,7 +17,10 @@ RULE = ("A real AsyncServiceBrowser (1..2 types, delay 1/10/60 s, question type 
         "datagrams of the host are decoded from the simulated wire. Monitors: start-up schedule (20..120 ms, then +1 s, +4 s, +9 s; "
         "first QU unless forced); minimum spacing between later query batches; every later query for a type is justified by a "
         "cached PTR of that type at >= 75 % of its current TTL (minus the delay); for every record that expires unrefreshed a "
-        "query at 75 % (+ at most delay) and at each further 10 % step; hence no expiry without refresh attempt. Distinct = (learn "
+        "query at 75 % (+ at most delay) and at each further 10 % step - the last step, whose lateness allowance runs past the expiry "
+        "when the delay exceeds 5 % of the TTL, is owed before the expiry unless a scheduler pass (read-only hook on "
+        "QueryScheduler._process_ready_types, also passes that send nothing) started a spacing interval that covers the expiry; "
+        "hence no expiry without refresh attempt. Distinct = (learn "
         "order, fate, delay, #types, forced type) classes.")
 ASSUMPTIONS = ["lateness bound for the 75 % query: the configured delay (+1 ms float slack), a query between 1x and 2x delay late is reported (known finding F22 when explained by churn rule + spacing); earliness bound: the delay (churn-avoidance rule)",
                "records whose 75 % instant falls before the end of the start-up phase (+delay) are not judged for liveness"]
@@ -28,7 +31,8 @@ TTL_CHOICES = [1, 120, 1125, 1200, 2000, 4500, 9000]
 
 def floors(tier):
     q = tier == "quick"
-    return {"c10.startup": 3000 if q else 300000, "c10.spacing": 15000 if q else 1500000, "c10.justified": 15000 if q else 1500000, "c10.liveness": 5000 if q else 500000}
+    return {"c10.startup": 3000 if q else 300000, "c10.spacing": 15000 if q else 1500000, "c10.justified": 15000 if q else 1500000, "c10.liveness": 5000 if q else 500000,
+            "c10.liveness.last_step": 500 if q else 50000, "c10.hook_scheduler_passes": 10000 if q else 1000000}
 
 
 def plan(tier, seed):
@@ -37,6 +41,28 @@ def plan(tier, seed):
     else:
         n, per = 64, 9000
     return [{"seed": seed, "shard": i, "per": per, "tier": tier} for i in range(n)]
+
+
+_PASSES: List[float] = []
+_HOOKED = False
+
+
+def install_pass_hook() -> None:
+    """Read-only wrapper (installed from the harness, nothing in the repository is edited) that records the instants at which
+    the refresh scheduler of a browser runs a pass - including passes that send nothing, which still start a new minimum-
+    spacing interval.  Needed to tell a 10 % step that the spacing rule pushed behind the expiry from one that was dropped."""
+    global _HOOKED
+    if _HOOKED:
+        return
+    from zeroconf._services import browser as B
+    orig = B.QueryScheduler._process_ready_types
+
+    def _process_ready_types(self: Any) -> None:
+        _PASSES.append(B.current_time_millis())
+        return orig(self)
+
+    B.QueryScheduler._process_ready_types = _process_ready_types  # type: ignore[method-assign]
+    _HOOKED = True
 
 
 def eff_ttl(ttl: int) -> int:
@@ -134,6 +160,8 @@ def run_scenario(res: Result, seed: int, sc: Optional[Dict[str, Any]] = None) ->
     sc = sc or gen_scenario(rng)
     res.evaluations += 1
     removed: List[Tuple[float, str]] = []
+    install_pass_hook()
+    del _PASSES[:]
 
     def viol(monitor: str, kind: str, detail: str, **sig: Any) -> None:
         res.violation(monitor, kind, detail, dict(sig, delay=sc["delay"]), {"seed": seed, "scenario": sc})
@@ -167,6 +195,7 @@ def run_scenario(res: Result, seed: int, sc: Optional[Dict[str, Any]] = None) ->
             browser = AsyncServiceBrowser(zc, sc["types"] if len(sc["types"]) > 1 else sc["types"][0], listener=L(), delay=sc["delay"], question_type=qt)
             await sim.sleep_ms(horizon + 2 * sc["delay"] + 30000)
             out["end"] = sim.now_ms()
+            out["passes"] = list(_PASSES)
             await browser.async_cancel()
             await azc.async_close()
 
@@ -198,6 +227,7 @@ def analyse(res: Result, sim: simnet.Sim, sc: Dict[str, Any], out: Dict[str, Any
         else:
             batches.append((e["t"], set(names), [m]))
     epochs = build_epochs(sc["events"], B)
+    res.mon("c10.hook_scheduler_passes", len(out.get("passes", [])))
     # ---- 1. start-up
     res.mon("c10.startup")
     st = batches[:4]
@@ -316,6 +346,7 @@ def analyse(res: Result, sim: simnet.Sim, sc: Dict[str, Any], out: Dict[str, Any
         maxgap = max(step + delay, 3 * delay) + 1.0
         attempts = [q for q in ts if due - delay - 1.0 <= q <= expiry]
         steps = 0
+        passes = out.get("passes", [])
         for a in attempts:
             if a + step < expiry - delay - 1.0:
                 steps += 1
@@ -323,6 +354,25 @@ def analyse(res: Result, sim: simnet.Sim, sc: Dict[str, Any], out: Dict[str, Any
                     viol("c10.liveness", "missing_rescue_query", "PTR %s (ttl %d): query at +%.0f but none in the following %.0f ms (10%% of TTL + delay); expiry +%.0f" % (
                         ep.alias, ep.ttl, a - B, maxgap, expiry - B))
                     break
+            elif a + step < expiry - 1.0:
+                # The next 10 % step lies before the expiry but its lateness allowance (one delay) runs past it (delay > 5 % of
+                # the TTL).  The step is owed unless the minimum spacing pushes it behind the expiry: every pass of the
+                # scheduler - also one that sends nothing, its entry having been cancelled - starts a new spacing interval, so
+                # a pass (read-only hook) after the previous query, before the step and less than one delay before the expiry
+                # explains the absence.  Without such a pass a query for the type must leave between the step and the expiry.
+                res.mon("c10.liveness.last_step")
+                steps += 1
+                nxt = a + step
+                if any(a < x <= expiry + 1.0 for x in ts):
+                    continue
+                pushed = [p for p in passes if a + 1.0 < p < nxt - 1e-3 and p + delay > expiry - 1.0]
+                if pushed:
+                    res.obs("last_step_pushed_behind_expiry_by_spacing")
+                    continue
+                viol("c10.liveness", "missing_rescue_query", "PTR %s (ttl %d): query at +%.0f, the next 10%% step at +%.0f lies before the expiry at +%.0f, but no "
+                     "query for the type was sent in between and no scheduler pass less than one delay before the expiry explains it" % (
+                         ep.alias, ep.ttl, a - B, nxt - B, expiry - B), last_step=True)
+                break
         res.cls("liveness", "ttl=%d" % ep.ttl, "rescues=%d" % steps)
     # Removed-by-expiry events must correspond to expired epochs
     fates = sorted({ev.get("fate", "-") for ev in sc["events"] if "fate" in ev})
